@@ -1,15 +1,18 @@
 import EmbitModel.Driver.Proto
 import EmbitModel.Model.PyCurve
 import EmbitModel.Crypto.SecpOps
+import EmbitModel.Crypto.SecpLawful
 /-
   Line-protocol ops for the model of key.py's field / curve arithmetic (Model/PyCurve.lean), C08:
     pycurve.pow b e m | pycurve.modinv a n | pycurve.jacobi n k | pycurve.modsqrt a p
     pycurve.<method> p a b …     methods of `EllipticCurve(p, a, b)`: affine, has_even_y, negate, on_curve,
                                  is_x_coord, lift_x, double, add_mixed, add, mul
     pycurve.set <sec bytes>      `ECPubKey.set` (secp256k1): validity, stored tuple, compressed flag
-    ecops.<field> …              the fields of the driver's concrete curve record `Crypto.secpOps` (the record every
-                                 `py.*` / `contract.*` op runs on): add, neg, mul, ofxy, liftx, invn — compared by the
-                                 harness with key.py's own arithmetic, whose model is proved to be the group law
+    lawful.<field> …             the fields of `Crypto.secpLawful`, the record every `py.*` / `contract.*` / `sig.*` / `sign.*`
+                                 op (and, bridged, every key op) runs on: add, neg, mul, mul2, ofxy, liftx, invn — compared
+                                 by the harness with key.py's own arithmetic (`EcLaws` of this record is a theorem, Props/C08W)
+    ecops.<field> …              the same fields of the FORMER record `Crypto.secpOps` (fast affine / Jacobian arithmetic over
+                                 `Option (Nat × Nat)`, junk points, no Lean proof) — no other op evaluates it any more
   Integers are decimal (possibly negative), tuples three integers, Python `None` is `None`, booleans True/False;
   `none` = the Python raises.
 -/
@@ -125,22 +128,26 @@ def showEcPt : Option (Nat × Nat) → String
   | none => "ok inf"
   | some (x, y) => "ok " ++ toString x ++ " " ++ toString y
 
-def handleEcOps (op : String) (args : List String) : Option String :=
-  if !op.startsWith "ecops." then none else
-  let E := Embit.Crypto.secpOps
-  match (op.drop 6).toString with
+/-- the fields of a curve record `E` on protocol points (`rd` reads a protocol value as a point of `E`) -/
+def ecOpsOver (E : EcOps) (rd : Option (Nat × Nat) → Option E.Pt) (fn : String) (args : List String) : Option String :=
+  let pt : TokM E.Pt := do
+    let q ← ecPt
+    match rd q with
+    | some P => pure P
+    | none => failure
+  match fn with
   | "add" => do
-    let (P, Q) ← runTok (do let P ← ecPt; let Q ← ecPt; pure (P, Q)) args
+    let (P, Q) ← runTok (do let P ← pt; let Q ← pt; pure (P, Q)) args
     pure (showEcPt (E.xy (E.add P Q)))
   | "neg" => do
-    let P ← runTok ecPt args
+    let P ← runTok pt args
     pure (showEcPt (E.xy (E.neg P)))
   | "mul" => do
-    let (k, P) ← runTok (do let k ← tokNat; let P ← ecPt; pure (k, P)) args
+    let (k, P) ← runTok (do let k ← tokNat; let P ← pt; pure (k, P)) args
     pure (showEcPt (E.xy (E.mul k P)))
   | "mul2" => do
     -- `u1·G + u2·P` as the model of `verify_ecdsa` writes it
-    let (a, b, P) ← runTok (do let a ← tokNat; let b ← tokNat; let P ← ecPt; pure (a, b, P)) args
+    let (a, b, P) ← runTok (do let a ← tokNat; let b ← tokNat; let P ← pt; pure (a, b, P)) args
     pure (showEcPt (E.xy (E.add (E.mul a E.g) (E.mul b P))))
   | "ofxy" => do
     let (x, y) ← runTok (do let x ← tokNat; let y ← tokNat; pure (x, y)) args
@@ -152,5 +159,11 @@ def handleEcOps (op : String) (args : List String) : Option String :=
     let a ← runTok tokNat args
     pure ("ok " ++ toString (E.invN a))
   | _ => none
+
+def handleEcOps (op : String) (args : List String) : Option String :=
+  if op.startsWith "ecops." then ecOpsOver Embit.Crypto.secpOps some (op.drop 6).toString args
+  else if op.startsWith "lawful." then
+    ecOpsOver Embit.Crypto.secpLawful Embit.Crypto.SecpLawful.ofPt (op.drop 7).toString args
+  else none
 
 end Embit.Driver
